@@ -172,7 +172,7 @@ class WorldGen:
         at = docs(rng, o)
         args = []
         r = rng.random()
-        if vfunc or r < 0.7:
+        if (vfunc and r < 0.88) or (not vfunc and r < 0.7):
             args.append(SELF if rng.random() < 0.5 else MUTSELF)
         for i in range(rng.randint(0, o.max_args)):
             args.append(arg('a%d' % i, self.arg_type(m)))
